@@ -264,6 +264,8 @@ func typeDefinitionSerializer(td dsl.TypeDefinition, contextNamespace string) st
 	}
 }
 
+// namedType is the alias whose own type t is, if any: a union that is directly the type of an
+// alias is generated under the alias' name. It does not apply to types nested inside t.
 func typeSerializer(t dsl.Type, contextNamespace string, namedType *dsl.NamedType) string {
 	switch t := t.(type) {
 	case nil:
@@ -273,10 +275,10 @@ func typeSerializer(t dsl.Type, contextNamespace string, namedType *dsl.NamedTyp
 	case *dsl.GeneralizedType:
 		getScalarSerializer := func() string {
 			if t.Cases.IsSingle() {
-				return typeSerializer(t.Cases[0].Type, contextNamespace, namedType)
+				return typeSerializer(t.Cases[0].Type, contextNamespace, nil)
 			}
 			if t.Cases.IsOptional() {
-				return fmt.Sprintf("yardl.binary.OptionalSerializer(%s)", typeSerializer(t.Cases[1].Type, contextNamespace, namedType))
+				return fmt.Sprintf("yardl.binary.OptionalSerializer(%s)", typeSerializer(t.Cases[1].Type, contextNamespace, nil))
 			}
 
 			unionClassName := common.UnionClassName(t)
@@ -293,7 +295,7 @@ func typeSerializer(t dsl.Type, contextNamespace string, namedType *dsl.NamedTyp
 					serializers[i] = "yardl.binary.NoneSerializer"
 					factories[i] = "yardl.None"
 				} else {
-					serializers[i] = typeSerializer(c.Type, contextNamespace, namedType)
+					serializers[i] = typeSerializer(c.Type, contextNamespace, nil)
 					factories[i] = fmt.Sprintf("@%s.%s", unionClassName, formatting.ToPascalCase(c.Tag))
 				}
 			}
@@ -327,7 +329,7 @@ func typeSerializer(t dsl.Type, contextNamespace string, namedType *dsl.NamedTyp
 			return fmt.Sprintf("yardl.binary.DynamicNDArraySerializer(%s)", getScalarSerializer())
 
 		case *dsl.Map:
-			keySerializer := typeSerializer(td.KeyType, contextNamespace, namedType)
+			keySerializer := typeSerializer(td.KeyType, contextNamespace, nil)
 			valueSerializer := typeSerializer(t.ToScalar(), contextNamespace, namedType)
 
 			return fmt.Sprintf("yardl.binary.MapSerializer(%s, %s)", keySerializer, valueSerializer)
